@@ -9,12 +9,13 @@
 using namespace inov;
 static mcx::Report R;
 
-struct Traj { std::vector<double> q, p; };
+struct Traj { std::vector<double> q, p, charge; };
 
-static void centroid(const PhaseSpace& ps, unsigned n, double& cq, double& cp) {
+static double centroid(const PhaseSpace& ps, unsigned n, double& cq, double& cp) {
     const float* d = ps.getData(); double s = 0, sq = 0, sp = 0;
     for (unsigned x = 0; x < n; x++) for (unsigned y = 0; y < n; y++) { double v = d[(size_t)x * n + y]; s += v; sq += v * ps.q(x); sp += v * ps.p(y); }
     cq = sq / s; cp = sp / s;
+    return s;
 }
 
 static Traj run(unsigned n, unsigned steps, float sx, float sy, unsigned it, double q0, double p0, double w, bool linear, bool& finite) {
@@ -40,11 +41,11 @@ static Traj run(unsigned n, unsigned steps, float sx, float sy, unsigned it, dou
     std::vector<float> slip = {angle, 0.f, 0.f};
     DriftMap dr(g1, g3, slip, (float)E0, itt, false, nullptr);
     Identity fp(g3, g1, nullptr);
-    Traj t; double cq, cp; centroid(*g1, n, cq, cp); t.q.push_back(cq); t.p.push_back(cp);
+    Traj t; double cq, cp; t.charge.push_back(centroid(*g1, n, cq, cp)); t.q.push_back(cq); t.p.push_back(cp);
     finite = true;
     for (unsigned k = 0; k < steps; k++) {
         wm.apply(); rf->apply(); dr.apply(); fp.apply();
-        centroid(*g1, n, cq, cp); t.q.push_back(cq); t.p.push_back(cp);
+        t.charge.push_back(centroid(*g1, n, cq, cp)); t.q.push_back(cq); t.p.push_back(cp);
         if (!std::isfinite(cq) || !std::isfinite(cp)) { finite = false; break; }
     }
     return t;
@@ -79,8 +80,12 @@ int main(int argc, char** argv) {
             const std::string key = std::string("C03/") + (linear ? "linear" : "sin") + ((sx != 0 || sy != 0) ? (sx != sy ? "/shifted-unequal" : "/shifted-equal") : "/centred");
             if (!fin) { R.violate(key + "/non-finite", kase, "centroid not finite, shift " + mcx::fstr(sx) + "," + mcx::fstr(sy)); continue; }
             const double c0q = t.q[0], c0p = t.p[0], r0 = std::hypot(c0q, c0p);
+            // the statement is about distributions that stay inside the grid: low interpolation orders smear the charge until it reaches the border;
+            // a trajectory is followed up to the first step at which more than 1e-4 of the charge has left
+            unsigned valid = steps; for (unsigned k = 1; k <= steps; k++) if (std::fabs(t.charge[k] / t.charge[0] - 1) > 1e-4) { valid = k - 1; break; }
+            if (valid < steps) R.addnum("sum_trajectories_cut_at_border", 1);
             double phase = 0; bool bad = false;
-            for (unsigned k = 1; k <= steps && !bad; k++) {
+            for (unsigned k = 1; k <= valid && !bad; k++) {
                 const double wq = c0q * std::cos(k * a) - c0p * std::sin(k * a), wp = c0q * std::sin(k * a) + c0p * std::cos(k * a);
                 const double err = std::hypot(t.q[k] - wq, t.p[k] - wp), tol = (0.6 * a + a * a + 2e-3) * r0 + 0.02 * dq;
                 worst_step = std::max(worst_step, err / tol);
@@ -93,6 +98,7 @@ int main(int argc, char** argv) {
                 phase += dphi;
             }
             if (bad) continue;
+            if (valid < steps) { if (!have_ref) { ref = t; have_ref = true; } continue; }   // full-period invariants need the whole period
             const double perr = std::fabs(phase - 2 * M_PI), ptol = 2 * a * a + 0.01;
             worst_phase = std::max(worst_phase, perr / ptol);
             if (!(perr <= ptol)) { char d[200]; snprintf(d, 200, "shift (%g,%g): phase accumulated over one period = %.5f rad (2 pi = %.5f), off by %.4g > %.4g", sx, sy, phase, 2 * M_PI, perr, ptol); R.violate(key + "/phase-advance", kase, d); }
